@@ -38,14 +38,52 @@ RULE = (
     "factor / coo factor data / core data or vals: scale a slice, shear a column, change an entry, scale everything, "
     "zero a slice), calls on a fresh copy made from the current attributes, and the returned array overwritten by the "
     "caller; every answer is judged against the array the object denotes at that moment.  A fixed list of models is "
-    "enumerated over every n and every r.  Non-trivial: 1 < r < I_n with separated leading eigenvalues (histories: such "
-    "a call after an edit)."
+    "enumerated over every n and every r.  "
+    "Round 3.  C14/nvecs/*/structured: forms whose parts are exactly special, epsilon-perturbed (eps = 1e-12 .. 1e-5 times a "
+    "generic matrix, on every factor or on one) or generic: 'tucker' = core (spectral / integer sparse / zero) times factor "
+    "matrices that are identity, permutation, orthonormal (square or tall), diagonal powers of two, unit-norm non-orthogonal "
+    "columns, generic integers; square, tall or wide; optionally with powers of two (2^+-30, 2^+-60) moved between factors "
+    "and core; 'kruskal' = factors with orthonormal / unit-vector / unit-norm / generic columns (rank above the mode sizes "
+    "for the latter two), weights equal, near-equal (eigenvalue gaps 1.1e-3 .. 5e-3 of the largest: just above the "
+    "separation threshold), geometric, slow decay, one exactly zero, either sign, optionally 2^+-60 moved between a "
+    "weight and its column; 'spectral' with singular values spanning 12 decades (a few separated leading ones, then "
+    "1e-5 .. 1e-12), gaps just above the threshold, rank one / two / deficient; the all-zero tensor (empty sptensor or "
+    "explicit zeros only, zero weights, a zero factor, zero core); overall magnitudes 1e-15 .. 1e+15.  "
+    "C14/nvecs/*/xlarge: a few cases per run with mode n of 60..200: block data with (I-2)*P/nb >= 1e4 stored nonzeros whose "
+    "leading vectors involve every stored entry, Kruskal forms with 2..12 orthonormal components or ~350 fibre components, "
+    "Tucker forms with tall (60..200 x 4..12) factors, dense spectral data; all expanded from seeds.  "
+    "C14/nvecs/sptensor/long-modes: a spectral model whose modes other than n are stretched to lengths 2**16, 2**40, 2**53+7, "
+    "2**60, 2**62 (one or two of them; products beyond 2**63), the stored entries sitting at a handful of indices (0, 1, L-1, "
+    "L/2, 2**31, 2**53 and 2**53+1 ...): the mode-n Gram matrix is that of the small array without the empty slices.  "
+    "Histories additionally keep every returned array alive, call twins of the holder (constructor copy, copy(), deepcopy, "
+    "a second object sharing the attribute arrays through copy=False) and fork (a public copy lives on beside the original; "
+    "one is edited and called, the other judged again at the end).  "
+    "Non-trivial: 1 < r < I_n with separated leading eigenvalues (histories: such a call after an edit)."
 )
 ASSUMPTIONS = [
     "reference: G = X_(n) X_(n)^T from the denoted array, numpy.linalg.eigh, eigenvalues in decreasing order",
     "value clauses apply when the r leading eigenvalues are pairwise separated, and separated from the (r+1)-th, by "
     "at least 1e-3*lambda_1 (the property quantifies over well separated leading eigenvalues); other cases only get "
-    "the shape and real-dtype clauses",
+    "the shape, real-dtype and finiteness clauses (e.g. equal Kruskal weights on orthonormal factors)",
+    "degenerate requests: when k < r leading eigenvalues are separated like that and every further one is below "
+    "1e-9*lambda_1 (rank-deficient unfolding - always when the other modes have fewer than I_n cells - with r beyond the "
+    "rank; a spectrum dropping by many decades) the request is still inside the quantifier (all r up to I_n, leading "
+    "eigenvalues separated), and the property allows exactly this: all r columns orthonormal, the first k the "
+    "eigenvectors of the k leading eigenvalues in order (subspace clause on those k), the other columns any orthonormal "
+    "vectors with ||G v|| negligible (eigenvector of a numerically zero eigenvalue: residual clause with the tolerance "
+    "below), energy as before, sign rule on every column.  All-zero tensor (k = 0): every vector is an eigenvector, so "
+    "any real orthonormal I_n x r matrix obeying the sign rule is allowed and nothing else",
+    "tight tolerances in */structured and */xlarge, where the conditioning of the representation is known: with "
+    "noise = 1e3 * 1.1e-16 * ||den_abs||_F^2 (rounding of any evaluation order of the Gram matrix, den_abs = the array "
+    "denoted by the absolute values of the attributes): V^T V = I within 1e-11; residual <= max(1e-10*lambda_1, noise); "
+    "projector within max(1e-9, noise/gap at the cut) (Davis-Kahan); value clauses only when lambda_1 >= 1e-4 * "
+    "||den_abs||_F^2 (label ill-conditioned-representation otherwise).  These are what makes a shortcut taken for "
+    "factors within 1e-8 of orthonormal visible (error eps/gap)",
+    "long modes: the product of the lengths of the modes other than n is either at most 2**16 * 72 or at least 2**40 - "
+    "the unrepaired sptensor.nvecs (C14-K8) needs memory proportional to it, and in between the outcome would depend on "
+    "the machine",
+    "several live objects: a twin that cannot be made or does not denote the same array is not used (copying is judged "
+    "by other properties); the kept arrays must compare equal (exactly) to their values at return time",
     "tolerances (all relative, the property is scale free): V^T V = I within 1e-8; ||G v_j - lambda_j v_j|| <= "
     "1e-6*lambda_1; captured energy within 1e-6*r*lambda_1; projector V V^T within 1e-6 (entrywise) of the reference "
     "projector; sign rule skipped for a column whose two largest magnitudes differ by less than 1e-9 (exact ties)",
@@ -71,33 +109,45 @@ def _npint(case, v):
     return int(v) if not t else getattr(np, t)(v)
 
 
-def _verify(ctx, X, V, n, r, flip, pre="", values=True):
+def _verify(ctx, X, V, n, r, flip, pre="", values=True, absnorm2=None):
     """the clauses of the property for one answer V = nvecs(n, r, flipsign=flip) of a holder denoting X; `pre` prefixes
-    the clause names (history cells: which solver path the step took).  Returns (separated, reference eigenvalues)."""
+    the clause names (history cells: which solver path the step took).  `absnorm2` (cells */structured, */xlarge) =
+    squared Frobenius norm of the array the absolute values of the holder's attributes denote: it bounds the rounding
+    noise of any evaluation of the Gram matrix by ~1e-16 * absnorm2 and turns on the tight tolerances.
+    Returns (value clauses applied, reference eigenvalues)."""
     I = X.shape[n]
     G, lam, Vref = H.reference(X, n)
-    sep = H.separated(lam, r)
+    k, cls = H.spectrum_class(lam, r)
     ctx.require(isinstance(V, np.ndarray) and V.shape == (I, r), pre + "nvecs-returns-In-by-r-array",
                 (type(V).__name__, getattr(V, "shape", None)))
     isreal = np.isrealobj(V)
     ctx.check(isreal, pre + "nvecs-real-dtype", str(V.dtype))
     ctx.require(bool(np.isfinite(V).all()), pre + "nvecs-finite")
-    if not sep or not values:
+    if cls == "not-separated" or not values:
         return False, lam
     if not isreal:
         # keep searching behind a complex dtype: the values must still be the real eigenvectors
         ctx.require(float(np.max(np.abs(V.imag), initial=0.0)) <= 1e-12, pre + "nvecs-imaginary-part-zero", float(np.max(np.abs(V.imag))))
         V = np.ascontiguousarray(V.real)
     V = np.asarray(V, dtype=float)
-    l1 = lam[0]
-    ctx.check(float(np.max(np.abs(V.T @ V - np.eye(r)))) <= 1e-8, pre + "nvecs-columns-orthonormal",
-              float(np.max(np.abs(V.T @ V - np.eye(r)))))
-    res = [float(np.linalg.norm(G @ V[:, j] - lam[j] * V[:, j])) for j in range(r)]
-    ctx.check(max(res) <= 1e-6 * l1, pre + "nvecs-columns-are-eigenvectors-in-decreasing-order", (max(res) / l1, lam[: min(r + 1, 6)].tolist()))
-    energy = float(np.trace(V.T @ G @ V))
-    ctx.check(abs(energy - float(lam[:r].sum())) <= 1e-6 * r * l1, pre + "nvecs-captures-leading-energy", (energy, float(lam[:r].sum())))
-    P, Pref = V @ V.T, Vref[:, :r] @ Vref[:, :r].T
-    ctx.check(float(np.max(np.abs(P - Pref))) <= 1e-6, pre + "nvecs-spans-dominant-subspace", float(np.max(np.abs(P - Pref))))
+    l1 = float(lam[0])
+    tight = absnorm2 is not None
+    noise = 1e-13 * float(absnorm2) if tight else 0.0  # 1e3 * unit roundoff * absnorm2
+    # every column, also those that belong to the negligible tail: orthonormal
+    dev = float(np.max(np.abs(V.T @ V - np.eye(r))))
+    ctx.check(dev <= (1e-11 if tight else 1e-8), pre + "nvecs-columns-orthonormal", dev)
+    if l1 > 0:
+        # column j is an eigenvector for the j-th largest eigenvalue (tail columns: for a negligible one, i.e. G v ~ 0)
+        tol_res = max(1e-10 * l1, noise) if tight else 1e-6 * l1
+        res = [float(np.linalg.norm(G @ V[:, j] - lam[j] * V[:, j])) for j in range(r)]
+        ctx.check(max(res) <= tol_res, pre + "nvecs-columns-are-eigenvectors-in-decreasing-order", (max(res) / l1, lam[: min(r + 1, 6)].tolist()))
+        energy = float(np.trace(V.T @ G @ V))
+        ctx.check(abs(energy - float(lam[:r].sum())) <= r * tol_res, pre + "nvecs-captures-leading-energy", (energy, float(lam[:r].sum())))
+        # the k separated leading columns span the reference's leading subspace (Davis-Kahan: noise / gap at the cut)
+        P, Pref = V[:, :k] @ V[:, :k].T, Vref[:, :k] @ Vref[:, :k].T
+        gap = float(lam[k - 1] - lam[k]) if k < len(lam) else l1
+        tol_P = max(1e-9, noise / gap) if tight else 1e-6
+        ctx.check(float(np.max(np.abs(P - Pref))) <= tol_P, pre + "nvecs-spans-dominant-subspace", (float(np.max(np.abs(P - Pref))), tol_P))
     if flip:
         bad = []
         for j in range(r):
@@ -108,12 +158,16 @@ def _verify(ctx, X, V, n, r, flip, pre="", values=True):
             if V[o[0], j] <= 0:
                 bad.append(j)
         ctx.check(not bad, pre + "nvecs-flipsign-largest-entry-positive", bad)
-    return sep, lam
+    return True, lam
 
 
 def _magnitude(X):
     m = float(np.max(np.abs(X), initial=0.0))
-    return "magnitude-tiny" if 0 < m < 1e-4 else ("magnitude-huge" if m > 1e4 else "magnitude-moderate")
+    if m == 0:
+        return "all-zero"
+    if m < 1e-8 or m > 1e8:
+        return "magnitude<1e-8" if m < 1 else "magnitude>1e8"
+    return "magnitude-tiny" if m < 1e-4 else ("magnitude-huge" if m > 1e4 else "magnitude-moderate")
 
 
 def _lead_structure(Vref, r):
@@ -130,21 +184,28 @@ def _lead_structure(Vref, r):
 
 
 def _denotes(obj, X):
+    """harness precondition: the holder denotes the model array, up to the rounding of evaluating the representation
+    (measured against the array the absolute values of the attributes denote: a form whose terms cancel carries that
+    much noise)"""
     D = H.den(obj)
-    scale = np.max(np.abs(X)) if X.size else 0.0
+    scale = float(np.max(H.den_abs(obj), initial=0.0)) if X.size else 0.0
     if not (D.shape == X.shape and np.max(np.abs(D - X), initial=0.0) <= 1e-12 * max(scale, 1e-300)):
         raise RuntimeError(f"harness: holder does not denote the model array (max diff {np.max(np.abs(D - X))})")
 
 
-def _check(ctx, case, make_holder, holder_name):
+def _check(ctx, case, make_holder, holder_name, tight=False):
     X = H.dense_of(case)
     n, r, flip = case["n"], case["r"], case["flipsign"]
     I = X.shape[n]
     _, lam, Vref = H.reference(X, n)
-    sep = H.separated(lam, r)
+    k, cls = H.spectrum_class(lam, r)
+    sep = cls == "separated"
     path = "iterative-path" if r < I - 1 else "dense-path"
-    ctx.nt = 1 < r < I and sep
+    ctx.nt = 1 < r < I and (sep or k >= 1)
     obj, labels = make_holder(case, X)
+    labels = labels + H.case_labels(case)
+    if cls == "separated-then-negligible":
+        labels = labels + ["r-beyond-the-numerical-rank" if k else "all-zero-tensor", "tail:" + path]
     if sep:
         labels = labels + _lead_structure(Vref, r)
     if isinstance(obj, ttb.ttensor) and isinstance(obj.core, ttb.sptensor):
@@ -153,23 +214,43 @@ def _check(ctx, case, make_holder, holder_name):
         d = obj.core.nnz / max(1, ref.prod(obj.core.shape))
         labels = labels + ["core-density<=half" if d <= 0.5 else "core-density>half"]
     ctx.label(holder_name, "family-" + case["family"], "spec-" + str(case.get("spectrum")), f"order{X.ndim}", path,
-              "separated" if sep else "not-separated", "flipsign" if flip else "noflip",
+              cls, "flipsign" if flip else "noflip",
               "r=1" if r == 1 else ("r=I" if r == I else ("r=I-1" if r == I - 1 else "1<r<I-1")),
               "n,r:" + (case.get("npint") or "python-int"), _magnitude(X),
               "I>20" if I > 20 else "I<=20", *labels)
     if I > 20 and path == "iterative-path":
         ctx.label("subspace>20" if 2 * r + 1 > 20 else "subspace=20")
+    if I >= 60:
+        ctx.label("I>=60", "I>=150" if I >= 150 else "I<150")
+    sp = obj if isinstance(obj, ttb.sptensor) else (obj.core if isinstance(obj, ttb.ttensor) and isinstance(obj.core, ttb.sptensor) else None)
+    if sp is not None and sp.nnz >= 4000:
+        ctx.label("stored-entries>=1e4" if sp.nnz >= 10000 else "stored-entries>=4e3")
+    if isinstance(obj, ttb.ktensor) and obj.ncomponents > 20:
+        ctx.label("components>20")
     # the holder denotes the array the reference was computed from
     _denotes(obj, X)
+    absn2 = None
+    values = True
+    if tight:
+        # the value clauses need the leading eigenvalue to stand clear of the rounding noise of the representation
+        # (generic factors with cancellation, powers of two moved between factors and core)
+        absn2 = float(np.sum(H.den_abs(obj) ** 2))
+        values = float(lam[0]) >= 1e-4 * absn2
+        if not values:
+            ctx.label("ill-conditioned-representation")
     np.random.seed(case["np_seed"])
     with ctx.sut(f"{holder_name}.nvecs"):
         V = obj.nvecs(_npint(case, n), _npint(case, r), flipsign=flip)
-    _verify(ctx, X, V, n, r, flip)
+    _verify(ctx, X, V, n, r, flip, values=values, absnorm2=absn2)
 
 
 def _history(ctx, case, make_holder, holder_name):
     """steps on one object; after every step the answer is judged against the array the object denotes *now* (read
-    from its attributes), so each call may depend only on its own arguments and the current state"""
+    from its attributes), so each call may depend only on its own arguments and the current state.  Several objects
+    stay alive: every returned array is kept (and must keep its values through later calls and edits, unless the
+    caller overwrote it), overwriting a returned array must leave the holder alone, calls go to twins of the holder
+    (copies, or a second object sharing the attribute arrays), and a history may fork: a copy made through the public
+    API lives on beside the original, one of them is edited and called, the other one is judged again at the end."""
     X = H.dense_of(case)
     obj, labels = make_holder(case, X)
     ctx.label(holder_name, "family-" + case["family"], f"steps={len(case['steps'])}", *labels)
@@ -177,7 +258,21 @@ def _history(ctx, case, make_holder, holder_name):
     edited = False
     nt = False
     last = None
+    kept = []   # (returned array, its values when it was returned)
+    fork = None  # (the object that is not touched any more, the array it denotes, the arguments of the first call)
     for k, s in enumerate(case["steps"]):
+        if s.get("fork") and fork is None:
+            other = H.twin(obj, s["fork"]["how"])
+            if other is None:
+                ctx.label("fork-copy-failed")
+            else:
+                s0 = case["steps"][0]
+                Xf = H.den(obj)
+                if s["fork"]["go_on_with"] == "copy":
+                    fork, obj = (obj, Xf, s0), other
+                else:
+                    fork = (other, Xf, s0)
+                ctx.label("fork-" + s["fork"]["how"], "fork-go-on-with-" + s["fork"]["go_on_with"])
         if s.get("edit"):
             ctx.label(H.apply_edit(obj, s["edit"]))
             edited = True
@@ -188,9 +283,10 @@ def _history(ctx, case, make_holder, holder_name):
         I = Xk.shape[n]
         target = obj
         if s.get("fresh"):
-            target = H.fresh_copy(obj)
-            _denotes(target, Xk)
-            ctx.label("call-on-fresh-copy")
+            t = H.twin(obj, s["fresh"])
+            if t is not None:
+                target = t
+                ctx.label("call-on-" + ("ctor-copy" if s["fresh"] is True else str(s["fresh"])))
         path = "iterative-path:" if r < I - 1 else "dense-path:"
         np.random.seed(s["np_seed"])
         with ctx.sut(f"{path}{holder_name}.nvecs"):
@@ -213,9 +309,28 @@ def _history(ctx, case, make_holder, holder_name):
         if edited and sep and 1 < r:
             nt = True
         if s.get("clobber") and isinstance(V, np.ndarray) and V.flags.writeable:
-            V[...] = 7.0  # the caller owns the returned array: a later call must not see this
+            V[...] = 7.0  # the caller owns the returned array: a later call must not see this, nor may the holder
             ctx.label("returned-array-overwritten")
+            ctx.check(ref.same_exact(H.den(obj), Xk) and ref.same_exact(H.den(target), Xk),
+                      path + "overwriting-the-returned-array-leaves-the-object-unchanged")
+        elif isinstance(V, np.ndarray):
+            kept.append((V, np.array(V, copy=True)))
         last = (this, V)
+    # the arrays returned earlier still hold what they held when they were returned
+    ctx.check(all(ref.same_exact(v, snap) for v, snap in kept), "earlier-results-unchanged-by-later-calls-and-edits")
+    if fork is not None:
+        other, Xf, s0 = fork
+        if not ref.same_exact(H.den(other), Xf):
+            ctx.label("fork-copy-shares-state")  # copying is judged by other properties
+        else:
+            n, r, flip = s0["n"], s0["r"], s0["flipsign"]
+            pre = "fork:" + ("iterative-path:" if r < Xf.shape[n] - 1 else "dense-path:")
+            np.random.seed(s0["np_seed"])
+            with ctx.sut(f"{pre}{holder_name}.nvecs"):
+                V = other.nvecs(_npint(case, n), _npint(case, r), flipsign=flip)
+            lam1 = float(H.reference(Xf, n)[1][0])
+            sep, _ = _verify(ctx, Xf, V, n, r, flip, pre=pre, values=lam1 >= 1e-4 * float(np.sum(H.den_abs(other) ** 2)))
+            ctx.label("fork-judged-" + ("separated" if sep else "not-separated") + ("-after-edit-of-the-other" if edited else ""))
     ctx.nt = nt
 
 
@@ -241,7 +356,7 @@ def _register(holder):
     cls = holder.split("-")[0]
     make, states = HOLDERS[holder]
 
-    @cell(f"C14/nvecs/{holder}/sampled", strategy=lambda tier: H.model_case(tier, states=states), quick=450, thorough=9000, shards=(2, 8))
+    @cell(f"C14/nvecs/{holder}/sampled", strategy=lambda tier: H.model_case(tier, states=states), quick=370, thorough=7500, shards=(2, 8))
     def sampled(ctx, case, _m=make, _c=cls):
         _check(ctx, case, _m, _c)
 
@@ -256,7 +371,19 @@ def _register(holder):
         leading vectors have exact structure (sum zero, few entries, sign symmetric), spectral models with generic ones"""
         _check(ctx, case, _m, _c)
 
-    @cell(f"C14/history/{holder}", strategy=lambda tier: H.history_case(tier, states=states), quick=150, thorough=6000, shards=(1, 8))
+    @cell(f"C14/nvecs/{holder}/structured", strategy=lambda tier: H.structured_case(tier, cls=cls, states=states), quick=125, thorough=3000,
+          shards=(1, 8))
+    def structured(ctx, case, _m=make, _c=cls):
+        """forms whose factors / weights / cores are exactly special, epsilon-perturbed or generic; magnitudes 1e-15..1e15;
+        12 decades inside one array; the all-zero tensor; r beyond the rank.  Tight tolerances."""
+        _check(ctx, case, _m, _c, tight=True)
+
+    @cell(f"C14/nvecs/{holder}/xlarge", strategy=lambda tier: H.xlarge_case(tier, cls=cls, states=states), quick=3, thorough=40, shards=(1, 4))
+    def xlarge(ctx, case, _m=make, _c=cls):
+        """a few large cases: mode sizes 60..200, 1e4+ stored nonzeros, tall factor matrices"""
+        _check(ctx, case, _m, _c, tight=True)
+
+    @cell(f"C14/history/{holder}", strategy=lambda tier: H.history_case(tier, states=states, cls=cls), quick=140, thorough=5500, shards=(1, 8))
     def history(ctx, case, _m=make, _c=cls):
         """2..4 calls on one object with in-place edits of its attribute arrays in between"""
         _history(ctx, case, _m, _c)
@@ -264,6 +391,35 @@ def _register(holder):
 
 for _holder in HOLDERS:
     _register(_holder)
+
+
+@cell("C14/nvecs/sptensor/long-modes", strategy=H.long_case, quick=25, thorough=500, shards=(1, 4))
+def long_modes(ctx, case):
+    """sparse tensor whose modes other than n have lengths 2**16 .. 2**62 with entries at a handful of their indices: the
+    mode-n Gram matrix is that of the small dense array obtained by deleting the empty slices of the long modes"""
+    X = H.dense_of(case)
+    n, r, flip = case["n"], case["r"], case["flipsign"]
+    subs, vals = H.nonzeros_F(X)
+    big = subs.astype(np.int64)
+    shape = [int(v) for v in X.shape]
+    for k, spec in case["long"].items():
+        used = np.array(spec["used"], dtype=np.int64)
+        big[:, int(k)] = used[subs[:, int(k)]]
+        shape[int(k)] = int(spec["L"])
+    p = np.random.default_rng(int(case["tseed"])).permutation(len(big))
+    S = ttb.sptensor(big[p], vals[p], tuple(shape))
+    I = X.shape[n]
+    cls = H.spectrum_class(H.reference(X, n)[1], r)[1]
+    lmax = max(int(spec["L"]) for spec in case["long"].values())
+    ctx.label("sptensor", f"order{X.ndim}", "iterative-path" if r < I - 1 else "dense-path", cls, f"long-modes={len(case['long'])}",
+              "longest>=2**53" if lmax >= 2 ** 53 else ("longest=2**40" if lmax >= 2 ** 40 else "longest=2**16"),
+              "cells>=2**63" if ref.prod(shape) >= 2 ** 63 else "cells<2**63",
+              *(["indices-2**53-and-2**53+1"] if any({2 ** 53, 2 ** 53 + 1} <= set(spec["used"]) for spec in case["long"].values()) else []))
+    ctx.nt = 1 < r < I and cls != "not-separated"
+    np.random.seed(case["np_seed"])
+    with ctx.sut("sptensor.nvecs"):
+        V = S.nvecs(_npint(case, n), _npint(case, r), flipsign=flip)
+    _verify(ctx, X, V, n, r, flip)
 
 
 # --------------------------------------------------------------------------
@@ -288,7 +444,36 @@ def _int_storage(case):
     return H.int_dtype_of(case, H.dense_of(case)) is not None
 
 
+def _repeated_tail(case):
+    """the request reaches into the negligible tail of the spectrum (a repeated, numerically zero eigenvalue)"""
+    lam = H.reference(H.dense_of(case), case["n"])[1]
+    return H.spectrum_class(lam, case["r"])[1] == "separated-then-negligible"
+
+
+ARPACK_FLOOR = float(np.finfo(float).eps) ** (2.0 / 3.0)  # 3.67e-11: dsconv tests bounds <= tol * max(eps23, |ritz|)
+
+
+def _below_floor(case):
+    """iterative solver on a mode longer than ARPACK's default subspace, largest Gram eigenvalue below ARPACK's floor"""
+    I = _In(case)
+    if not (case["r"] < I - 1 and I > 20):
+        return False
+    lam = H.reference(H.dense_of(case), case["n"])[1]
+    return 0 < float(lam[0]) < ARPACK_FLOOR
+
+
+def _history_below_floor(case):
+    """histories: a mode longer than 20 and data so small that every Gram matrix stays below the floor also after the
+    edits (which scale by at most 4 each)"""
+    X = H.dense_of(case)
+    return max(case["shape"]) > 20 and 0 < float(np.sum(X * X)) < ARPACK_FLOOR / 4096.0
+
+
 PREDICATES = {
+    "iterative_path_gram_below_arpack_floor": _below_floor,
+    "history_gram_below_arpack_floor": _history_below_floor,
+    "long_other_mode": lambda case: any(int(spec["L"]) >= 2 ** 40 for spec in case.get("long", {}).values()),
+    "dense_path_repeated_tail": lambda case: case["r"] >= _In(case) - 1 and _repeated_tail(case),
     # integer core and integer factor matrices (as_ttensor keeps the factors float when tseed is a multiple of 3)
     "ttensor_all_integer_iterative": lambda case: _int_storage(case) and case.get("tseed", 0) % 3 != 0 and case["r"] < _In(case) - 1,
     "sptensor_int_storage_iterative": lambda case: _int_storage(case) and case["r"] < _In(case) - 1,
